@@ -242,6 +242,17 @@ func wireCmd(args []string) int {
 			{Action: "DeliverMalformed", Args: []interface{}{ch, "real-payload-changed"}}, {Action: "DeliverMalformed", Args: []interface{}{ch, "real-payload-changed"}},
 			{Action: "DeliverReal", Args: []interface{}{ch}}, {Action: "DeliverValid", Args: []interface{}{ch}}}})
 	}
+	// a run of undecodable payloads from one peer on one channel (longer than any counter a receiver might keep), then a
+	// valid message from the same peer
+	for _, ch := range []string{"topic", "direct"} {
+		steps := []Step{}
+		for k, cls := range []string{"garbage", "truncated-real", "json-not-object", "empty", "heads-ill-typed", "garbage", "deep-nesting", "garbage", "truncated-real", "head-ill-typed", "garbage", "garbage"} {
+			_ = k
+			steps = append(steps, Step{Action: "DeliverMalformed", Args: []interface{}{ch, cls}})
+		}
+		steps = append(steps, Step{Action: "DeliverValid", Args: []interface{}{ch}}, Step{Action: "DeliverValid", Args: []interface{}{ch}})
+		behaviours = append(behaviours, Behaviour{ID: "noise-run-then-valid/" + ch, Steps: steps})
+	}
 	for bi, b := range behaviours {
 		rng := rand.New(rand.NewSource(in.Seed*1009 + int64(bi)))
 		env, err := newWireEnv(fmt.Sprintf("w%d", bi))
